@@ -2,9 +2,12 @@ package main
 
 import (
 	"bytes"
+	"context"
 	"fmt"
 	"io/fs"
 	"math/rand"
+	"os"
+	"os/exec"
 	"path/filepath"
 	"sort"
 	"strconv"
@@ -423,6 +426,24 @@ func checkC03(c *Ctx) {
 
 	// (d) file trees for Load
 	c03FileTrees(s, r, opts, c.pick(400, 6000))
+	// scripts whose failure mode would be an unrecoverable crash of the host (unbounded recursion while rendering a value
+	// that contains itself) run in a child process each: the child must come back
+	{
+		self, err := os.Executable()
+		must(err)
+		for i, script := range c14CyclicScripts {
+			ctx, cancel := context.WithTimeout(context.Background(), 20*time.Second)
+			cmd := exec.CommandContext(ctx, self, "c14child", "quick", strconv.Itoa(i))
+			var so, se bytes.Buffer
+			cmd.Stdout, cmd.Stderr = &so, &se
+			err := cmd.Run()
+			cancel()
+			c.Evaluations++
+			if err != nil || !strings.HasPrefix(so.String(), "OK") {
+				c.violate(hashKey("child|"+script), fmt.Sprintf("a host process evaluating this script did not come back (%v; %s): %s", err, firstLine(se.String()), strings.ReplaceAll(script, "\n", "; ")), map[string]any{"source": script, "stderr": clip(se.String(), 600)})
+			}
+		}
+	}
 	// every short token string as the WHOLE text of a package file, reached by Load (package form, file form) and as an
 	// imported package; Eval with no file system at all (nil) and an import
 	{
@@ -444,6 +465,21 @@ func checkC03(c *Ctx) {
 					})
 				}
 			}
+		}
+		// files that begin with comments, closed or not, before or instead of a package clause
+		for _, raw := range []string{"/* never closed", "/*", "/* a */", "/* a */ package main", "// c\n/* open", "//go:build goat\n\n/* open", "/* open\n//go:build goat\n", "/**/", "/* x */ /* y", "\n\n/* late open",
+			"//", "//go:build", "//go:build !goat", "// +build ignore", "/* a */\n//go:build ignore\npackage main", "package main /* open", "package main\n/* open"} {
+			raw := raw
+			s.loadOnce(map[string]string{"main/main.go": raw}, "main", nil)
+			s.loadOnce(map[string]string{"main/main.go": raw}, "main/main.go", nil)
+			s.loadOnce(map[string]string{"main/main.go": "package main\nimport \"ext\"\n", "ext/ext.go": raw}, "main", nil)
+			s.loadOnce(map[string]string{"main/main.go": "package main\nimport \"ext\"\n", "ext/a.go": "package ext\nvar A = 1\n", "ext/b.go": raw}, "main", nil)
+			s.observe("Eval", nil, map[string]any{"entry": "Eval", "source": "import \"ext\"", "files": map[string]string{"ext/ext.go": raw}}, func() error {
+				vm := goat.New(goat.WithStdout(&bytes.Buffer{}))
+				_, err := vm.Eval(mapFS(map[string]string{"ext/ext.go": raw}), "fuzz.go", "import \"ext\"")
+				return err
+			})
+			s.evalOnce(raw, nil, fstest.MapFS{})
 		}
 		for _, src := range []string{"import \"fmt\"", "import \"nosuch\"", "import (\n\t\"strings\"\n\tx \"a/b\"\n)", "x := 1"} {
 			src := src
